@@ -1,6 +1,7 @@
 import FordModel.Proto
 import FordModel.Calls
 import FordModel.CallsTable
+import FordModel.CallsLine
 namespace Ford
 open Proto Calls
 
@@ -64,6 +65,14 @@ def dispatchC08 : List Str → Option (List Str)
             | none => ["ok".toList, ['0']])
         else some ["bad-request".toList]
       | _ => some ["bad-request".toList]
+    else if cmd == "c08.qsplit".toList then
+      -- c08.qsplit <s> : `quote_split(";", s)`
+      match args with
+      | [s] => some ("ok".toList :: quoteSplit ';' s)
+      | _ => some ["bad-request".toList]
+    else if cmd == "c08.lines".toList then
+      -- completed logical lines of a unit body -> the statements the reader delivers
+      some ("ok".toList :: unitStatements args)
     else if cmd == "c08.gate".toList then
       -- c08.gate <blocklevel> <masked line> : branch taken
       match args with
